@@ -290,6 +290,7 @@ Definition check_omaha (t : tables) (ckeys : list (N * N)) (all : list c17step) 
                     else
                       (* property: the server holds the key of a pair the client holds under the same id and
                          nothing forces the ETag => accepted; no such key on the server => no ETag, refused *)
+                      if negb (st =? 200) then 0 else       (* status 500: nothing is configured, nothing is promised *)
                       match find_key (s_keys s) id, s_etag_override s with
                       | Some sk, None =>
                           (* key handles are the harness's key-pair numbers on both sides:
